@@ -287,6 +287,7 @@ fn prog_fp(case: &Case) -> u64 {
 }
 
 fn run_chunking(case: &Case, schedules: &[Chunk], st: &mut RunStats) -> Outcome<Case> {
+    set_poll_after_error(false);
     let base = Case { wchunk: Chunk::Full, prog: with_pipes(&case.prog, &Chunk::Full), ..case.clone() };
     let (exec0, image0, ctx0, _d0) = writer_run(&base, vec![], false);
     st.absorb_ctx(&ctx0);
@@ -368,6 +369,7 @@ fn run_chunking(case: &Case, schedules: &[Chunk], st: &mut RunStats) -> Outcome<
 }
 
 fn run_faults(case: &Case, target: Target, point: &Option<Fault>, st: &mut RunStats) -> Outcome<Case> {
+    set_poll_after_error(true);
     // fault-free reference with the operation log
     let (exec0, image0, ctx0, _d0) = writer_run(case, vec![], true);
     st.absorb_ctx(&ctx0);
@@ -547,7 +549,7 @@ impl Prop for C16 {
     fn meta(&self) -> Meta {
         Meta {
             level: "fault_enumeration",
-            rule: "per run index one small seeded writer program (0-3 items, knob on, <= 40 points per cloud, payloads <= 2.6 KiB). Index % 4 == 3: chunking mode - the program and the read-everything history (validate_crc, raw_xml, open, xml, listings, raw + simple iteration of every cloud, every blob) under 4 transfer schedules (one byte at a time, boundary-biased, 2 random) for device, source pipes and sinks must give byte-identical images and identical results as full transfers. Otherwise: single-error mode, exhaustive per program - the fault-free device-operation sequence (device and pipes on one clock) of the writer program (even indices) or of the reader session (odd) is recorded, and for EVERY operation and every flavour applicable to its kind (hard error of kind Other; an error of another kind - TimedOut, WouldBlock, UnexpectedEof, InvalidData, BrokenPipe, NotFound by operation number, UnexpectedEof on every read; short transfer then error, two cut sizes on reads; EINTR; write returning 0; disk full from that write on) the session is re-run with exactly that fault. Writer runs meet every fault three times: with a caller that stops at the failed call and drops everything, with one that gives up the affected item and goes on with the next call up to the top-level finalize, and with one that calls a failed top-level finalize a second time. Oracle: every device operation that reported an error lies inside an API call that returned Err (iterators: Some(Err)), except EINTR (may be absorbed: then the result must equal the fault-free one) and operations inside Drop; every operation of a reader session that met no failing device operation gives the fault-free result, also behind the failed one; no panic; whenever top-level finalize returned Ok the image equals the fault-free image and is flushed; for the callers that go on: whenever top-level finalize returned Ok the file opens and everything the successful calls handed in reads back. Distinct = (program shape, fault kind, operation number, API call class); non-trivial = the fault fired".into(),
+            rule: "per run index one small seeded writer program (0-3 items, knob on, <= 40 points per cloud, payloads <= 2.6 KiB; every sixteenth program, read by a reader session, also holds a payload of 64 KiB or more). Iterators are polled three more times after their first error. Index % 4 == 3: chunking mode - the program and the read-everything history (validate_crc, raw_xml, open, xml, listings, raw + simple iteration of every cloud, every blob) under 4 transfer schedules (one byte at a time, boundary-biased, 2 random) for device, source pipes and sinks must give byte-identical images and identical results as full transfers. Otherwise: single-error mode, exhaustive per program - the fault-free device-operation sequence (device and pipes on one clock) of the writer program (even indices) or of the reader session (odd) is recorded, and for EVERY operation and every flavour applicable to its kind (hard error of kind Other; an error of another kind - TimedOut, WouldBlock, UnexpectedEof, InvalidData, BrokenPipe, NotFound by operation number, UnexpectedEof on every read; short transfer then error, two cut sizes on reads; EINTR; write returning 0; disk full from that write on) the session is re-run with exactly that fault. Writer runs meet every fault three times: with a caller that stops at the failed call and drops everything, with one that gives up the affected item and goes on with the next call up to the top-level finalize, and with one that calls a failed top-level finalize a second time. Oracle: every device operation that reported an error lies inside an API call that returned Err (iterators: Some(Err)), except EINTR (may be absorbed: then the result must equal the fault-free one) and operations inside Drop; every operation of a reader session that met no failing device operation gives the fault-free result, also behind the failed one; no panic; whenever top-level finalize returned Ok the image equals the fault-free image and is flushed; for the callers that go on: whenever top-level finalize returned Ok the file opens and everything the successful calls handed in reads back. Distinct = (program shape, fault kind, operation number, API call class); non-trivial = the fault fired".into(),
             assumptions: vec![
 "in the reader sessions and the chunking mode nothing follows a failed call; what a writer offers after a failed call is judged only through the top-level finalize (it must not report success for an incomplete file)".into(),
                 "EINTR is injected on read and write transfers only".into(),
@@ -584,7 +586,12 @@ impl Prop for C16 {
             small: true,
             big_permille: 0,
         };
-        let prog = gen_program(rc.run_seed, &cfg);
+        let mut prog = gen_program(rc.run_seed, &cfg);
+        if rc.index % 16 == 5 {
+            // a reader session over a payload of 64 KiB or more
+            let len = *g.pick(&[65_536usize, 65_537, 66_000, 70_001]);
+            prog.calls.push(Call::Blob { data: crate::model::Bytes::draw(&mut g, len), pipe: Chunk::Full, fail_after: None });
+        }
         let mut c = Rng::stream(rc.run_seed, "chunk-dev");
         if rc.index % 4 == 3 {
             let schedules = vec![
